@@ -129,6 +129,7 @@ func genC14(r *Rng, tier string) *World {
 	w.Schemas = []*Node{root}
 	// the logical record
 	scalarLists := false
+	bigDone := false
 	var rec func(n *Node) (Val, bool)
 	rec = func(n *Node) (Val, bool) {
 		switch n.Kind {
@@ -195,6 +196,11 @@ func genC14(r *Rng, tier string) *World {
 				// two values for a field that holds one (a parameter sent twice): every front end hands over the same list
 				scalarLists = true
 				return VL(genTyped(r, n.Kind), genTyped(r, n.Kind)), true
+			}
+			if n.Kind == "string" && !bigDone && r.P(0.001) {
+				// a record of more than a mebibyte (one long text): size is no reason for front ends to disagree
+				bigDone = true
+				return VS(strings.Repeat("k", 1<<20+50000+r.Intn(1000))), true
 			}
 			if n.Kind == "float" && !goStruct && r.P(0.08) {
 				// a number written with more digits than a float64 keeps (half-way cases of the narrower type among them):
@@ -331,6 +337,9 @@ func genC14(r *Rng, tier string) *World {
 		io := &IOSpec{Chunk: Pick(r, []int{0, 0, 1, 3, 8}), EOFData: r.P(0.3)}
 		for i := 0; i < r.Intn(3); i++ {
 			io.Steps = append(io.Steps, RdStep{K: Pick(r, []string{"stall", "chunk"}), N: 1 + r.Intn(4)})
+		}
+		if bigDone && io.Chunk > 0 {
+			io.Chunk = Pick(r, []int{4096, 65536, 1000003}) // a mebibyte is not delivered three bytes at a time
 		}
 		switch f {
 		case "map":
